@@ -967,6 +967,20 @@ void macho_set_definitions(YR_OBJECT* object)
   yr_set_integer(S_ATTR_LOC_RELOC, object, "S_ATTR_LOC_RELOC");
 }
 
+// Number of fat_arch entries that were actually parsed. The nfat_arch field
+// comes from the file and can be any 32-bit value, the entries exist only if
+// the whole table fits in the file.
+
+static uint64_t macho_parsed_fat_archs(YR_OBJECT* module)
+{
+  uint64_t nfat = yr_get_integer(module, "nfat_arch");
+
+  uint64_t parsed = (uint64_t) yr_object_array_length(
+      yr_get_object(module, "fat_arch"));
+
+  return yr_min(nfat, parsed);
+}
+
 // Get Mach-O file index in fat file by cputype field.
 
 define_function(file_index_type)
@@ -974,7 +988,7 @@ define_function(file_index_type)
   YR_OBJECT* module = yr_module();
   int64_t type_arg = integer_argument(1);
 
-  uint64_t nfat = yr_get_integer(module, "nfat_arch");
+  uint64_t nfat = macho_parsed_fat_archs(module);
   if (yr_is_undefined(module, "nfat_arch"))
     return_integer(YR_UNDEFINED);
 
@@ -996,7 +1010,7 @@ define_function(file_index_subtype)
   YR_OBJECT* module = yr_module();
   int64_t type_arg = integer_argument(1);
   int64_t subtype_arg = integer_argument(2);
-  uint64_t nfat = yr_get_integer(module, "nfat_arch");
+  uint64_t nfat = macho_parsed_fat_archs(module);
 
   if (yr_is_undefined(module, "nfat_arch"))
     return_integer(YR_UNDEFINED);
@@ -1021,7 +1035,7 @@ define_function(ep_for_arch_type)
 {
   YR_OBJECT* module = yr_module();
   int64_t type_arg = integer_argument(1);
-  uint64_t nfat = yr_get_integer(module, "nfat_arch");
+  uint64_t nfat = macho_parsed_fat_archs(module);
 
   if (yr_is_undefined(module, "nfat_arch"))
     return_integer(YR_UNDEFINED);
@@ -1047,7 +1061,7 @@ define_function(ep_for_arch_subtype)
   YR_OBJECT* module = yr_module();
   int64_t type_arg = integer_argument(1);
   int64_t subtype_arg = integer_argument(2);
-  uint64_t nfat = yr_get_integer(module, "nfat_arch");
+  uint64_t nfat = macho_parsed_fat_archs(module);
 
   if (yr_is_undefined(module, "nfat_arch"))
     return_integer(YR_UNDEFINED);
